@@ -519,7 +519,7 @@ fn list_case(max_objects: usize) -> impl Strategy<Value = ListCase> {
             vec(size, n),
             vec(decoy(archive), 0..=3),
             vec(decoy(archive), 0..=3),
-            prop_oneof![3 => Just(100usize), 2 => Just(1usize), 2 => 1usize..=20, 1 => Just(1000usize)],
+            prop_oneof![3 => Just(100usize), 2 => Just(1usize), 2 => 1usize..=20, 1 => Just(1000usize), 1 => prop_oneof![Just(1001usize), Just(u32::MAX as usize), Just(usize::MAX / 2), Just(usize::MAX), Just(isize::MAX as usize / 56 + 1), 1001usize..=usize::MAX]],
             prop_oneof![9 => Just(false), 1 => Just(true)],
             any::<bool>(),
             (any::<bool>(), 0u8..4),
@@ -608,6 +608,7 @@ pub fn classify_list(c: &ListCase) -> CaseInfo {
 }
 
 pub fn run(ctx: &Ctx, rep: &mut Report) {
+    rep.journal_cases = true;
     let _ = s3sim::global();
     rep.trust("loopback S3 simulator (harness/src/s3sim.rs): prefix filtering, stored order, max-keys, ListObjectsV2 XML with entity escaping, request log");
     rep.assume("keys have the documented 5-segment (archive) / 3-segment (real-time) form, carry only characters XML 1.0 can carry (escaped as entity references, never CDATA), and final segments are non-empty and not whitespace-only; sites are [A-Z][A-Z0-9]{3}");
